@@ -7681,7 +7681,10 @@ MHD_connection_epoll_update_ (struct MHD_Connection *connection)
                   _ ("Call to epoll_ctl failed: %s\n"),
                   MHD_socket_last_strerr_ ());
 #endif
-      connection->state = MHD_CONNECTION_CLOSED;
+      /* Close properly: notify the application if it has seen the request,
+         release the response and the memory pool */
+      MHD_connection_close_ (connection,
+                             MHD_REQUEST_TERMINATED_WITH_ERROR);
       cleanup_connection (connection);
       return MHD_NO;
     }
